@@ -565,20 +565,60 @@ func c09PostProcess(c *Check) {
 		}
 		return found
 	}
+	isWalk := func(cl ssa.CallInstruction) bool {
+		o := calleeObj(cl)
+		return o != nil && o.Name() == "Walk" && o.Pkg() != nil && strings.HasSuffix(o.Pkg().Path(), "/antlr")
+	}
+	// runsPost: the call i runs post-processing — it calls it, is handed a
+	// closure that does, or calls a step of the same package in which such a
+	// call dominates every return
+	var runsPost func(i ssa.Instruction, depth int) bool
+	stepRunsPost := func(g *ssa.Function, depth int) bool {
+		if len(g.Blocks) == 0 || depth > 3 {
+			return false
+		}
+		found := false
+		eachInstr(g, func(_ *ssa.BasicBlock, i ssa.Instruction) {
+			if found || !runsPost(i, depth) {
+				return
+			}
+			all := true
+			for _, b := range g.Blocks {
+				if ret, ok := b.Instrs[len(b.Instrs)-1].(*ssa.Return); ok && !instrDominates(i, ret) {
+					all = false
+				}
+			}
+			if all {
+				found = true
+			}
+		})
+		return found
+	}
+	runsPost = func(i ssa.Instruction, depth int) bool {
+		cl, ok := i.(ssa.CallInstruction)
+		if !ok {
+			return false
+		}
+		sc := staticCallee(cl)
+		if sc == post {
+			return true
+		}
+		for _, a := range cl.Common().Args {
+			if mc, ok := a.(*ssa.MakeClosure); ok {
+				if fn, ok := mc.Fn.(*ssa.Function); ok && callsPost(fn) {
+					return true
+				}
+			}
+		}
+		return sc != nil && sc != post && fnPkgPath(sc) == repoMod+"/pkg/parse" && stepRunsPost(sc, depth+1)
+	}
 	n := 0
 	for _, f := range p.RepoFuncs() {
 		if fnPkgPath(f) != repoMod+"/pkg/parse" || f.Parent() != nil || moduleResultIndex(f.Signature) < 0 {
 			continue
 		}
-		// the function that walks trees
-		walks := false
-		for _, g := range withClosures(f) {
-			eachCall(g, func(cl ssa.CallInstruction) {
-				if o := calleeObj(cl); o != nil && o.Name() == "Walk" && strings.HasSuffix(o.Pkg().Path(), "/antlr") {
-					walks = true
-				}
-			})
-		}
+		// the function that walks trees (itself, or in the steps it is split into)
+		walks := reachesCall(f, repoMod+"/pkg/parse", 3, isWalk)
 		if !walks {
 			continue
 		}
@@ -592,23 +632,77 @@ func c09PostProcess(c *Check) {
 			if cell[ei] || !isNilConst(vals[ei]) {
 				continue
 			}
+			// a return nothing was walked before (parsing switched off) has nothing to
+			// post-process; a module handed on from another function of the family
+			// is that function's to post-process
+			walked, handedOn := false, false
+			mi := moduleResultIndex(f.Signature)
+			_, fld, base, isF := loadedField(vals[mi])
+			if !isF || fld != "module" {
+				base = nil
+			}
+			related := func(a ssa.Value) bool {
+				if base == nil {
+					return true // not the module of a listener: located no more precisely
+				}
+				// the object the listener is read from (a context struct) counts as well
+				for r := base; r != nil; {
+					if r == a || unspill(r) == unspill(a) {
+						return true
+					}
+					switch x := r.(type) {
+					case *ssa.UnOp:
+						r = x.X
+					case *ssa.FieldAddr:
+						r = x.X
+					case *ssa.Field:
+						r = x.X
+					default:
+						r = nil
+					}
+				}
+				return derives(base, func(v ssa.Value) bool { return v == a || v == unspill(a) }, nil)
+			}
+			eachInstr(f, func(_ *ssa.BasicBlock, i ssa.Instruction) {
+				if !canReach(i, ret, nil) {
+					return
+				}
+				switch x := i.(type) {
+				case *ssa.MakeClosure:
+					fn, _ := x.Fn.(*ssa.Function)
+					if fn == nil || !reachesCall(fn, repoMod+"/pkg/parse", 3, isWalk) {
+						return
+					}
+					for _, b := range x.Bindings {
+						if related(b) {
+							walked = true
+						}
+					}
+				case ssa.CallInstruction:
+					sc := staticCallee(x)
+					if !isWalk(x) && !(sc != nil && sc != f && fnPkgPath(sc) == repoMod+"/pkg/parse" && reachesCall(sc, repoMod+"/pkg/parse", 3, isWalk)) {
+						return
+					}
+					for _, a := range x.Common().Args {
+						if related(a) {
+							walked = true
+						}
+					}
+					if sc != nil && moduleResultIndex(sc.Signature) >= 0 && x.Value() != nil &&
+						derives(vals[mi], func(v ssa.Value) bool { return v == ssa.Value(x.Value()) }, nil) {
+						handedOn = true
+					}
+				}
+			})
+			if !walked || handedOn {
+				continue
+			}
 			n++
 			// dominated by a call that runs postProcess
 			dom := false
 			eachInstr(f, func(_ *ssa.BasicBlock, i ssa.Instruction) {
-				cl, ok := i.(ssa.CallInstruction)
-				if !ok || !instrDominates(i, ret) {
-					return
-				}
-				if staticCallee(cl) == post {
+				if !dom && instrDominates(i, ret) && runsPost(i, 0) {
 					dom = true
-				}
-				for _, a := range cl.Common().Args {
-					if mc, ok := a.(*ssa.MakeClosure); ok {
-						if fn, ok := mc.Fn.(*ssa.Function); ok && callsPost(fn) {
-							dom = true
-						}
-					}
 				}
 			})
 			c.Cond(dom, "IMPORT-POSTPROCESS", fnName(f)+"|post-process before success return", p.pos(ret.Pos()),
